@@ -583,6 +583,100 @@ def verdictshift(run, fx):
         run.held('RESOLVED', inst, fn.loc(ss[0]), 'setShift(%s) under nothing but tests of %s itself' % (res['n'], res['n']))
 
 
+def initfresh(run, fx):
+    """the colliders are reused from glyph to glyph; initSlot re-arms one for the next target.  Nothing in it may read a member that
+    it (re)assigns from one of its parameters further down: the value read would be the one left over from the previous glyph (the target's origin computed from
+    the previous target's offset).  For every member stored in ShiftCollider::initSlot / KernCollider::initSlot: no read of that member
+    is reachable from the entry without passing one of its stores.  And Zones::exclude_with_margins removes the hard range on every
+    path (ZONESET decides what remove() does; this decides that it is called)."""
+    from .util import reaches_avoiding
+    n = 0
+    for q in ('graphite2::ShiftCollider::initSlot', 'graphite2::KernCollider::initSlot'):
+        fn = fx.one(q)
+        stores = {}
+        for _, e in fn.elements():
+            tgt = None
+            if e['k'] == 'BinaryOperator' and e['op'] == '=':
+                tgt = fn.strip(e['c'][0])
+            elif e['k'] == 'CXXOperatorCallExpr' and (e.get('fq') or '').endswith('::operator=') and e.get('args'):
+                tgt = fn.strip_all_casts(fn.N(e['args'][0]))
+            if tgt is not None and tgt['k'] == 'MemberExpr' and tgt.get('dk') == 'Field' and fn.render(fn.N(tgt['c'][0])) == 'this':
+                stores.setdefault(tgt['d'], []).append((e, tgt['i']))
+        first = fn.blocks[fn.entry]['el'][0] if fn.blocks[fn.entry]['el'] else None
+        pvids = {p_['vid'] for p_ in fn.f['params']}
+
+        def from_param(e_):
+            rhs = e_['c'][1] if e_['k'] == 'BinaryOperator' else (e_['args'][1] if len(e_.get('args') or []) > 1 else None)
+            return rhs is not None and fn.strip_all_casts(fn.N(rhs)).get('vid') in pvids
+        for F_, sts in stores.items():
+            if not any(from_param(e_) for e_, _ in sts):
+                continue            # state the collider carries from glyph to glyph on purpose (KernCollider's slice table) is not an instance
+            n += 1
+            inst = '%s reads %s only after setting it' % (q.split('graphite2::')[-1], F_.split('::')[-1])
+            lhs_ids = {i_ for _, i_ in sts}
+            reads = [x for _, x in fn.elements() if x['k'] == 'MemberExpr' and x.get('d') == F_ and x['i'] not in lhs_ids and fn.render(fn.N(x['c'][0])) == 'this']
+            bad = None
+            exposed_reads = []
+            for r_ in reads:
+                # a read that is the object of a sub-member store (`_limit.bl.x = ..`) is a write, not a read
+                par = fn.parents().get(r_['i'], [])
+                top, hops = r_['i'], 0
+                while par and fn.N(par[0])['k'] == 'MemberExpr' and hops < 6:
+                    top, par, hops = par[0], fn.parents().get(par[0], []), hops + 1
+                if par and fn.N(par[0])['k'] in ('BinaryOperator', 'CompoundAssignOperator') and fn.N(par[0]).get('op', '').endswith('=') and fn.N(par[0])['op'] not in ('==', '!=', '<=', '>=') and fn.N(par[0])['c'][0] == top and fn.N(par[0])['op'] == '=':
+                    continue
+                exposed_reads.append(r_)
+            # blocks reachable from the entry before any store of the member has run
+            spos = {}
+            for e_, _ in sts:
+                b_ = fn.block_of[e_['i']]
+                spos[b_] = min(spos.get(b_, 10 ** 9), fn.pos_of[e_['i']])
+            seen, stk = set(), [fn.entry]
+            while stk and bad is None:
+                b_ = stk.pop()
+                if b_ in seen:
+                    continue
+                seen.add(b_)
+                lim = spos.get(b_)
+                for r_ in exposed_reads:
+                    if fn.block_of[r_['i']] == b_ and (lim is None or fn.pos_of[r_['i']] < lim):
+                        bad = r_
+                        break
+                if lim is None:
+                    stk.extend(x for x in fn.succs(b_) if x is not None)
+            if bad:
+                run.violated('LIMITARGS', inst, fn.loc(bad), '%s reads `%s` at line %s before any of its assignments in this function has run: the value belongs to the glyph the collider handled '
+                             'last, so the target\'s geometry (and every exclusion computed from it) is displaced by the difference' % (q, fn.render(bad), bad['ln']))
+            else:
+                run.held('LIMITARGS', inst, fn.where(), '%d read(s), all after a store' % len(reads))
+    ex = fx.one('graphite2::Zones::exclude_with_margins')
+    rm = calls_in(ex, 'graphite2::Zones::remove')
+    inst = 'exclude_with_margins removes the hard range on every path'
+    pv = [p_['vid'] for p_ in ex.f['params'][:2]]
+    ok = [e for e in rm if len(e.get('args') or []) >= 2 and [ex.strip_all_casts(ex.N(a)).get('vid') for a in e['args'][:2]] == pv]
+    if not ok:
+        run.violated('ZONESET', inst, ex.where(), 'Zones::exclude_with_margins no longer calls remove(xmin, xmax) with its own range')
+    else:
+        blocks = {ex.block_of[e['i']] for e in ok}
+        seen, st, esc = set(), [ex.entry], False
+        while st:
+            b = st.pop()
+            if b in seen or b in blocks:
+                continue
+            seen.add(b)
+            if b == ex.exit:
+                esc = True
+                break
+            st.extend(x for x in ex.succs(b) if x is not None)
+        if esc:
+            run.violated('ZONESET', inst, ex.where(), 'a path through Zones::exclude_with_margins returns without remove(xmin, xmax): the range the neighbour occupies stays in the free intervals, '
+                         'closest() may offer a position inside it and the collision is reported as resolved')
+        else:
+            run.held('ZONESET', inst, ex.where(), 'remove(xmin, xmax) on every path')
+    if n < 8:
+        run.broken('LIMITARGS', 'initSlot members', 'only %d members assigned from parameters in the two initSlot functions' % n, '')
+
+
 def limitargs(run, fx):
     """LIMITARGS: "keeps the glyph's ACCUMULATED collision offset inside the limit rectangle in force for the glyph".  Both colliders are
     told three things about the glyph being fixed: its limit rectangle, the shift computed so far in this pass, and the offset accumulated
@@ -734,7 +828,7 @@ def run(run):
     N = 4 if run.tier == 'thorough' and not run.cfg_tag else 3
     for name, f in (('ZONESET', lambda: zoneset(run, fx, N)), ('ZONEWRITERS', lambda: zonewriters(run, fx)),
                     ('OFFERED', lambda: offered(run, fx, N)), ('RESOLVED', lambda: resolved(run, fx)), ('RESOLVED', lambda: verdictshift(run, fx)),
-                    ('LIMITARGS', lambda: limitargs(run, fx)), ('LIMITARGS', lambda: kernclamp(run, fx))):
+                    ('LIMITARGS', lambda: limitargs(run, fx)), ('LIMITARGS', lambda: kernclamp(run, fx)), ('LIMITARGS', lambda: initfresh(run, fx))):
         try:
             f()
         except AnalysisBroken as ex:
